@@ -24,7 +24,7 @@ M = [
     ("temp_consume_before_drop", "C06", "src/ops/temp.rs", "        unsafe{\n            let drop_fn = self.any_vec_raw().drop_fn;\n            let element = self.op.bytes() as *mut u8;", "        unsafe{\n            let drop_fn = self.any_vec_raw().drop_fn;\n            let element = self.op.bytes() as *mut u8;\n            if false { self.op.consume(); }", None),
     ("clear_len_after", "C06", "src/any_vec_raw.rs", "        self.len = 0;\n\n        if let Some(drop_fn) = self.drop_fn{\n            unsafe{\n                (drop_fn)(self.mem.as_mut_ptr(), len);\n            }\n        }", "        if let Some(drop_fn) = self.drop_fn{\n            unsafe{\n                (drop_fn)(self.mem.as_mut_ptr(), len);\n            }\n        }\n        self.len = 0;", "clear zeroes len after the destructors ran"),
     ("pop_no_len_lower", "C07", "src/ops/pop.rs", "        any_vec_raw.len -= 1;\n\n        Self{", "        Self{", None),
-    ("remove_len_late", "C07", "src/ops/remove.rs", "        any_vec_raw.len = index;\n\n        Self{any_vec_ptr, index, last_index, phantom: PhantomData}", "        any_vec_raw.len = last_index;\n\n        Self{any_vec_ptr, index, last_index, phantom: PhantomData}", "Remove::new lowers len only by one: forgetting leaves a moved-out element visible"),
+    ("remove_len_late", "C06", "src/ops/remove.rs", "        any_vec_raw.len = index;\n\n        Self{any_vec_ptr, index, last_index, phantom: PhantomData}", "        any_vec_raw.len = last_index;\n\n        Self{any_vec_ptr, index, last_index, phantom: PhantomData}", "Remove::new lowers len only by one: a destructor panicking inside the handle's drop leaves the destroyed element visible (not a C07 violation: an immediately forgotten handle has moved nothing out)"),
     ("push_no_typecheck", "C04", "src/any_vec.rs", "    pub fn push<V: AnyValue>(&mut self, value: V) {\n        self.raw.type_check(&value);", "    pub fn push<V: AnyValue>(&mut self, value: V) {", "push does not check the type"),
     ("splice_no_item_check", "C04", "src/ops/splice.rs", "                assert_types_equal(type_id, replace_element.value_typeid());\n", "", "splice does not check item types"),
     ("elem_downcast_ref_nocheck", "C04", "src/element.rs", "    pub fn downcast_ref<T: 'static>(&self) -> Option<&'a T>{\n        if self.value_typeid() != TypeId::of::<T>(){", "    pub fn downcast_ref<T: 'static>(&self) -> Option<&'a T>{\n        if false && self.value_typeid() != TypeId::of::<T>(){", "ElementPointer::downcast_ref accepts any type"),
